@@ -332,27 +332,30 @@ def cZRangeByScore (cs : CState) (k : Nat) (lo hi : Option Bound) (ws : Bool) (l
 
 /-! ## SORT (mod.rs) -/
 
+/-- the second half of `Command::Sort`: numeric conversion of every element, sort, reply or STORE -/
+def cSortTail (c : CState) (es : List BS) (store : Option Nat) : CState × Reply :=
+  if es.any (fun e => (sortNum e).isNone) then (c, .err .notDouble)
+  else
+    match store with
+    | none => (c, .arr ((sortAll es).map Elem.bulk))
+    | some d =>
+      if (sortAll es).isEmpty then (dropKey c d, .int 0)
+      else ({ c with data := NMap.insert d (.list (sortAll es)) c.data, exp := NMap.erase d c.exp },
+            .int (sortAll es).length)
+
+/-- what SORT works on, by the type `get_value` found; `none` = WRONGTYPE -/
+def sortElems : Option Value → Option (List BS)
+  | some (.list l) => some l
+  | some (.set m) => some (m.map (fun p => codeBytes p.1))
+  | some (.zset z) => some (z.map (fun p => p.1))
+  | none => some []
+  | some _ => none
+
 /-- `Command::Sort { key, store }` -/
 def cSort (cs : CState) (k : Nat) (store : Option Nat) : CState × Reply :=
-  let g := getValue cs k
-  let src : Option (List BS) :=
-    match g.2 with
-    | some (.list l) => some l
-    | some (.set m) => some (m.map (fun p => codeBytes p.1))
-    | some (.zset z) => some (z.map (fun p => p.1))
-    | none => some []
-    | some _ => none
-  match src with
-  | none => (g.1, wrongType)
-  | some es =>
-    if es.any (fun e => (sortNum e).isNone) then (g.1, .err .notDouble)
-    else
-      match store with
-      | none => (g.1, .arr ((sortAll es).map Elem.bulk))
-      | some d =>
-        if (sortAll es).isEmpty then (dropKey g.1 d, .int 0)
-        else ({ g.1 with data := NMap.insert d (.list (sortAll es)) g.1.data, exp := NMap.erase d g.1.exp },
-              .int (sortAll es).length)
+  match sortElems (getValue cs k).2 with
+  | none => ((getValue cs k).1, wrongType)
+  | some es => cSortTail (getValue cs k).1 es store
 
 /-! ## the dispatcher (`CommandExecutor::execute`) -/
 
